@@ -418,6 +418,9 @@ def build_replay(pid, contract, ob_name, meta, model, verdict_raw):
             lines.append("print('quantified variables:', {k: env[k] for k in %r})" % list(meta["qvars"]))
         if kind == "ensures":
             lines += [
+                "if raised is not None and type(raised).__name__ in %r:" % sorted(set(contract.raises) | set(contract.may_raise)),
+                "    print('NO-FAILING-INPUT: the generic replay input made the real code raise an exception the contract permits (' + repr(raised) + '): the clause is not exercised by this input')",
+                "    sys.exit(2)",
                 "if raised is not None:",
                 "    print('real code raised an exception under a satisfied precondition instead of returning:', repr(raised))",
                 "    print('CONFIRMED'); sys.exit(1)",
